@@ -29,6 +29,9 @@ type c18call struct {
 	done     bool
 }
 
+// c18ForceBurst: set by the C15 registration, which is only interested in concurrent direct writers.
+var c18ForceBurst bool
+
 func runC18(c *Ctx) {
 	t := c.Scen
 	connType := client.ConnectionTypeFull
@@ -126,7 +129,7 @@ func runC18(c *Ctx) {
 	}
 	cs.LinkFor = func(n int) *Link {
 		l := &Link{BaseLatency: time.Duration(pickFrom(t, 1, 5, 30)) * time.Millisecond, Jitter: time.Duration(pickFrom(t, 0, 5, 40)) * time.Millisecond, Tape: t, Frag: t.Bool(1, 3), Coalesce: t.Bool(1, 2)}
-		if t.Bool(1, 3) {
+		if t.Bool(1, 3) || c18ForceBurst {
 			l.SlowWrite = func(side int) time.Duration {
 				if side == 0 && t.Bool(1, 3) {
 					return time.Duration(1+t.Choose(80)) * time.Millisecond
@@ -173,10 +176,19 @@ func runC18(c *Ctx) {
 				simrt.Sleep(20 * time.Millisecond)
 			}
 		})
+		// a third of the runs: the subscribe calls go out the moment a service accepts a connection,
+		// i.e. together with the handler's Ready and with each other (all of them write directly
+		// during the handshake)
+		burst := t.Bool(1, 3) || c18ForceBurst
 		for _, cl := range calls {
 			cl := cl
 			simrt.Go(fmt.Sprintf("app-call#%d", cl.idx), func() {
-				if wait := started + cl.at - cs.S.Now(); wait > 0 {
+				if burst && cl.kind == "subscribe" {
+					for i := 0; i < 20000 && !cs.RC.IsAccepted(quietCtx()); i++ {
+						simrt.Sleep(time.Millisecond)
+					}
+					c.Probe("subscribe_burst_at_accept")
+				} else if wait := started + cl.at - cs.S.Now(); wait > 0 {
 					simrt.Sleep(wait)
 				}
 				cl.started = cs.S.Now()
